@@ -31,12 +31,14 @@ EXTENDS VacuumRound
 CONSTANTS Ns,            \* replica counts explored
           Kinds,         \* pre-states explored: "normal", "big", "under", "ro"
           SlowReplies, CommitMayHang, Fixed,
+          Rounds,        \* Vacuum is called up to Rounds times on the same topology
           KFB            \* deviation ids admitted by PostOK
 VARIABLES n, kind, enough, isbig, isro,
           writable,      \* V is in the layout's writable list
           pc, st, script, ch, errCount, got, vlist, allOk, i, isRO, commitOk,
-          bad            \* ghost: a Call violated rule (1)
-bvars == <<n, kind, enough, isbig, isro, writable, pc, st, script, ch, errCount, got, vlist, allOk, i, isRO, commitOk, bad>>
+          bad,           \* ghost: a Call violated rule (1)
+          round
+bvars == <<n, kind, enough, isbig, isro, writable, pc, st, script, ch, errCount, got, vlist, allOk, i, isRO, commitOk, bad, round>>
 vars == <<avars, bvars>>
 
 V == 1
@@ -48,6 +50,8 @@ BOuts(op) == CASE op = "check" -> {"hi", "lo", "err", "timeout"}
                [] op = "commit" -> {"ok", "ro", "err"} \cup (IF CommitMayHang THEN {"timeout"} ELSE {})
                [] op = "cleanup" -> {"ok", "err"} \cup (IF CommitMayHang THEN {"timeout"} ELSE {})
 SeqRange(s) == {s[k] : k \in DOMAIN s}
+Ins(s, x) == SelectSeq(s, LAMBDA y : y <= x) \o <<x>> \o SelectSeq(s, LAMBDA y : y > x)
+RemoveAt(s, k) == SubSeq(s, 1, k - 1) \o SubSeq(s, k + 1, Len(s))
 
 BInitWith(nn, k, en, big, ro) ==
   /\ n = nn /\ kind = k /\ enough = en /\ isbig = big /\ isro = ro
@@ -56,7 +60,7 @@ BInitWith(nn, k, en, big, ro) ==
   /\ st = [r \in Reps |-> IdleRec]
   /\ script = [r \in Reps |-> NaRec]
   /\ ch = <<>> /\ errCount = 0 /\ got = 0 /\ vlist = <<>> /\ allOk = TRUE /\ i = 1
-  /\ isRO = FALSE /\ commitOk = TRUE /\ bad = FALSE
+  /\ isRO = FALSE /\ commitOk = TRUE /\ bad = FALSE /\ round = 1
   /\ shadow = Const(Vols, Const(Reps, "none"))
   /\ live = Const(Vols, Const(Reps, "C"))
   /\ open = {}
@@ -75,19 +79,21 @@ Serve(r, op, out) ==
   /\ script' = [script EXCEPT ![r][op] = out]
   /\ CallEffect(V, r, op)
   /\ bad' = (bad \/ ~CallGuard(V, r, op))
-  /\ UNCHANGED <<n, kind, enough, isbig, isro, writable, pc, ch, errCount, got, vlist, allOk, i, isRO, commitOk>>
+  /\ UNCHANGED <<n, kind, enough, isbig, isro, writable, pc, ch, errCount, got, vlist, allOk, i, isRO, commitOk, round>>
 
-(* the answer of a check / compact RPC is taken by its goroutine straight away (:22-42, :69-85:
-   errCount++, `ch <- ...`); that step is local to the goroutine and merged into the reply *)
+(* the answer of a check / compact RPC is taken by its goroutine (:22-42, :69-85: errCount++,
+   `ch <- ...`); that step is local to the goroutine and merged into the reply.  Goroutines
+   race to the channel, so `ch` is a BAG (kept as a sorted sequence; the master takes any
+   element): the order of the vacuum list is any order of the replies *)
 Reply(r, op) ==
   /\ st[r][op] = "serving" /\ script[r][op] # "timeout"
   /\ RetEffect(V, r, op, script[r][op])
   /\ st' = [st EXCEPT ![r][op] = IF op \in {"check", "compact"} THEN "consumed" ELSE "replied"]
   /\ errCount' = errCount + (IF op = "check" /\ script[r][op] = "err" THEN 1 ELSE 0)
-  /\ ch' = CASE op = "check" -> Append(ch, IF script[r][op] = "hi" THEN r ELSE 0)
-              [] op = "compact" -> Append(ch, IF script[r][op] = "ok" THEN 1 ELSE 0)
+  /\ ch' = CASE op = "check" -> Ins(ch, IF script[r][op] = "hi" THEN r ELSE 0)
+              [] op = "compact" -> Ins(ch, IF script[r][op] = "ok" THEN 1 ELSE 0)
               [] OTHER -> ch
-  /\ UNCHANGED <<n, kind, enough, isbig, isro, writable, pc, script, got, vlist, allOk, i, isRO, commitOk, bad>>
+  /\ UNCHANGED <<n, kind, enough, isbig, isro, writable, pc, script, got, vlist, allOk, i, isRO, commitOk, bad, round>>
 
 (* the timer of a wait loop over `who` (replicas addressed in phase op) *)
 TimerMayFire(op, who) ==
@@ -101,25 +107,26 @@ MStart ==           \* :179-190: read-only volumes are skipped; else check gorou
   /\ IF isro THEN pc' = "done" /\ UNCHANGED st
              ELSE /\ pc' = "check_wait"
                   /\ st' = [r \in Reps |-> IF r \in Live THEN [st[r] EXCEPT !.check = "sent"] ELSE st[r]]
-  /\ UNCHANGED <<avars, n, kind, enough, isbig, isro, writable, script, ch, errCount, got, vlist, allOk, i, isRO, commitOk, bad>>
+  /\ UNCHANGED <<avars, n, kind, enough, isbig, isro, writable, script, ch, errCount, got, vlist, allOk, i, isRO, commitOk, bad, round>>
 
 MCheckRecv ==       \* :49-54
-  /\ pc = "check_wait" /\ ch # <<>>
-  /\ ch' = Tail(ch)
-  /\ vlist' = IF Head(ch) # 0 THEN Append(vlist, Head(ch)) ELSE vlist
+  /\ pc = "check_wait"
+  /\ \E k \in DOMAIN ch :
+       /\ ch' = RemoveAt(ch, k)
+       /\ vlist' = IF ch[k] # 0 THEN Append(vlist, ch[k]) ELSE vlist
   /\ got' = got + 1
   /\ pc' = IF got + 1 = n THEN "check_end" ELSE pc
-  /\ UNCHANGED <<avars, n, kind, enough, isbig, isro, writable, st, script, errCount, allOk, i, isRO, commitOk, bad>>
+  /\ UNCHANGED <<avars, n, kind, enough, isbig, isro, writable, st, script, errCount, allOk, i, isRO, commitOk, bad, round>>
 
 MCheckTimeout ==    \* :55-56  returns (list, false)
   /\ pc = "check_wait" /\ TimerMayFire("check", Live)
   /\ pc' = "done"
-  /\ UNCHANGED <<avars, n, kind, enough, isbig, isro, writable, st, script, ch, errCount, got, vlist, allOk, i, isRO, commitOk, bad>>
+  /\ UNCHANGED <<avars, n, kind, enough, isbig, isro, writable, st, script, ch, errCount, got, vlist, allOk, i, isRO, commitOk, bad, round>>
 
 MCheckEnd ==        \* :59, :190
   /\ pc = "check_end"
   /\ pc' = IF errCount = 0 /\ Len(vlist) > 0 THEN "compact_start" ELSE "done"
-  /\ UNCHANGED <<avars, n, kind, enough, isbig, isro, writable, st, script, ch, errCount, got, vlist, allOk, i, isRO, commitOk, bad>>
+  /\ UNCHANGED <<avars, n, kind, enough, isbig, isro, writable, st, script, ch, errCount, got, vlist, allOk, i, isRO, commitOk, bad, round>>
 
 MCompactStart ==    \* :63-86  removeFromWritable, then the goroutines
   /\ pc = "compact_start"
@@ -127,27 +134,28 @@ MCompactStart ==    \* :63-86  removeFromWritable, then the goroutines
   /\ st' = [r \in Reps |-> IF r \in SeqRange(vlist) THEN [st[r] EXCEPT !.compact = "sent"] ELSE st[r]]
   /\ ch' = <<>> /\ got' = 0 /\ allOk' = TRUE
   /\ pc' = "compact_wait"
-  /\ UNCHANGED <<avars, n, kind, enough, isbig, isro, script, errCount, vlist, i, isRO, commitOk, bad>>
+  /\ UNCHANGED <<avars, n, kind, enough, isbig, isro, script, errCount, vlist, i, isRO, commitOk, bad, round>>
 
 MCompactRecv ==     \* :92-95
-  /\ pc = "compact_wait" /\ ch # <<>>
-  /\ ch' = Tail(ch)
-  /\ allOk' = (allOk /\ Head(ch) = 1)
+  /\ pc = "compact_wait"
+  /\ \E k \in DOMAIN ch :
+       /\ ch' = RemoveAt(ch, k)
+       /\ allOk' = (allOk /\ ch[k] = 1)
   /\ got' = got + 1
   /\ i' = 1
   /\ pc' = IF got + 1 = Len(vlist) THEN (IF allOk' THEN "commit" ELSE "cleanup") ELSE pc
-  /\ UNCHANGED <<avars, n, kind, enough, isbig, isro, writable, st, script, errCount, vlist, isRO, commitOk, bad>>
+  /\ UNCHANGED <<avars, n, kind, enough, isbig, isro, writable, st, script, errCount, vlist, isRO, commitOk, bad, round>>
 
 MCompactTimeout ==  \* :96-97
   /\ pc = "compact_wait" /\ TimerMayFire("compact", SeqRange(vlist))
   /\ pc' = "cleanup" /\ i' = 1
-  /\ UNCHANGED <<avars, n, kind, enough, isbig, isro, writable, st, script, ch, errCount, got, vlist, allOk, isRO, commitOk, bad>>
+  /\ UNCHANGED <<avars, n, kind, enough, isbig, isro, writable, st, script, ch, errCount, got, vlist, allOk, isRO, commitOk, bad, round>>
 
 SeqSend(op, at, to) ==
   /\ pc = at /\ i <= Len(vlist)
   /\ st' = [st EXCEPT ![vlist[i]][op] = "sent"]
   /\ pc' = to
-  /\ UNCHANGED <<avars, n, kind, enough, isbig, isro, writable, script, ch, errCount, got, vlist, allOk, i, isRO, commitOk, bad>>
+  /\ UNCHANGED <<avars, n, kind, enough, isbig, isro, writable, script, ch, errCount, got, vlist, allOk, i, isRO, commitOk, bad, round>>
 
 MCommitSend == SeqSend("commit", "commit", "commit_rpc")       \* :105-110
 MCommitRecv ==      \* :111-121
@@ -156,31 +164,45 @@ MCommitRecv ==      \* :111-121
   /\ isRO' = (isRO \/ script[vlist[i]].commit = "ro")
   /\ commitOk' = (commitOk /\ script[vlist[i]].commit # "err")
   /\ i' = i + 1 /\ pc' = "commit"
-  /\ UNCHANGED <<avars, n, kind, enough, isbig, isro, writable, script, ch, errCount, got, vlist, allOk, bad>>
+  /\ UNCHANGED <<avars, n, kind, enough, isbig, isro, writable, script, ch, errCount, got, vlist, allOk, bad, round>>
 MCommitEnd ==       \* :123-128 with volume_layout.go SetVolumeAvailable
   /\ pc = "commit" /\ i > Len(vlist)
   /\ writable' = IF commitOk /\ ~isRO /\ enough THEN TRUE ELSE writable
   /\ pc' = "done"
-  /\ UNCHANGED <<avars, n, kind, enough, isbig, isro, st, script, ch, errCount, got, vlist, allOk, i, isRO, commitOk, bad>>
+  /\ UNCHANGED <<avars, n, kind, enough, isbig, isro, st, script, ch, errCount, got, vlist, allOk, i, isRO, commitOk, bad, round>>
 
 MCleanupSend == SeqSend("cleanup", "cleanup", "cleanup_rpc")   \* :131-138
 MCleanupRecv ==     \* :139-143
   /\ pc = "cleanup_rpc" /\ st[vlist[i]].cleanup = "replied"
   /\ st' = [st EXCEPT ![vlist[i]].cleanup = "consumed"]
   /\ i' = i + 1 /\ pc' = "cleanup"
-  /\ UNCHANGED <<avars, n, kind, enough, isbig, isro, writable, script, ch, errCount, got, vlist, allOk, isRO, commitOk, bad>>
+  /\ UNCHANGED <<avars, n, kind, enough, isbig, isro, writable, script, ch, errCount, got, vlist, allOk, isRO, commitOk, bad, round>>
 MCleanupEnd ==      \* :194 (+ the fix: EnsureCorrectWritables)
   /\ pc = "cleanup" /\ i > Len(vlist)
   /\ writable' = IF Fixed THEN (IF enough THEN (IF isbig THEN writable ELSE TRUE) ELSE FALSE) ELSE writable
   /\ pc' = "done"
-  /\ UNCHANGED <<avars, n, kind, enough, isbig, isro, st, script, ch, errCount, got, vlist, allOk, i, isRO, commitOk, bad>>
+  /\ UNCHANGED <<avars, n, kind, enough, isbig, isro, st, script, ch, errCount, got, vlist, allOk, i, isRO, commitOk, bad, round>>
+
+(* Topology.Vacuum is called again (vacuumLockCounter was reset by the deferred store, :154).
+   RPCs of the previous round that never answered are forgotten here: continuation is modelled
+   for rounds whose RPCs were all answered or timed out *)
+MNextRound ==
+  /\ pc = "done" /\ round < Rounds
+  /\ round' = round + 1
+  /\ pc' = "start"
+  /\ st' = [r \in Reps |-> IdleRec] /\ script' = [r \in Reps |-> NaRec]
+  /\ ch' = <<>> /\ errCount' = 0 /\ got' = 0 /\ vlist' = <<>> /\ allOk' = TRUE /\ i' = 1
+  /\ isRO' = FALSE /\ commitOk' = TRUE
+  /\ compactedV' = Const(Vols, FALSE) /\ commitV' = Const(Vols, FALSE) /\ cleanedV' = Const(Vols, FALSE)
+  /\ open' = {}
+  /\ UNCHANGED <<shadow, live, wBefore, bigVols, roSeen, shrunk, cFailed, phase, n, kind, enough, isbig, isro, writable, bad>>
 
 Internal == \/ MStart \/ MCheckRecv \/ MCheckTimeout \/ MCheckEnd \/ MCompactStart \/ MCompactRecv
             \/ MCompactTimeout \/ MCommitSend \/ MCommitRecv \/ MCommitEnd
             \/ MCleanupSend \/ MCleanupRecv \/ MCleanupEnd
 (* once the round is over nothing the master does can depend on late arrivals: stop there *)
 Visible == pc # "done" /\ \E r \in Live, op \in Ops : (\E out \in BOuts(op) : Serve(r, op, out)) \/ Reply(r, op)
-Next == Internal \/ Visible
+Next == Internal \/ Visible \/ MNextRound
 Spec == Init /\ [][Next]_vars
 FairSpec == Spec /\ WF_vars(Next)
 
@@ -198,7 +220,7 @@ UnwritableWhileCompacting == pc = "compact_wait" => ~writable
 OnlyGarbageCompacted == \A r \in Reps : st[r].compact # "idle" => script[r].check = "hi"
 (* commit and cleanup exclude each other *)
 CommitXorCleanup == ~(\E r \in Reps : st[r].commit # "idle") \/ ~(\E r \in Reps : st[r].cleanup # "idle")
-Termination == <>(pc = "done")
+Termination == <>(pc = "done" /\ round = Rounds)
 
 (* generator: the script that produced this round *)
 Emit == pc # "done" \/ PrintT(<<"W", ToJson([n |-> n, kind |-> kind, s |-> [r \in Live |-> script[r]]])>>)
